@@ -701,16 +701,12 @@ func (h *hydra) SubscribeToSwampEvents(clientID uuid.UUID, swampName name.Name, 
 		}
 	}()
 
-	if subscribers, ok := h.eventSubscribers.Load(canonicalForm); ok {
-		// Always overwrite the subscriber, since the channel may have changed as well.
-		subscribers.(*sync.Map).Store(clientID.String(), subscriberEventCallbackFunction)
-		return nil
-	}
-
-	// there is no subscribers to this swamp yet
-	subscribers := &sync.Map{}
-	subscribers.Store(clientID.String(), subscriberEventCallbackFunction)
-	h.eventSubscribers.Store(canonicalForm, subscribers)
+	// LoadOrStore: two clients that subscribe at the same time to a swamp that has no
+	// subscriber yet must end up in the same map (a separate Load + Store let the later
+	// Store replace the earlier client's map, and that client never received an event).
+	// Always overwrite the subscriber, since the channel may have changed as well.
+	subscribers, _ := h.eventSubscribers.LoadOrStore(canonicalForm, &sync.Map{})
+	subscribers.(*sync.Map).Store(clientID.String(), subscriberEventCallbackFunction)
 
 	return nil
 
